@@ -39,6 +39,12 @@ def jobs_for(tier, rng):
         jobs.append({"mdp": m, "kind": "SAVI", "gamma": [1, 2], "eps": [1, 6], "test": "span", "calls": [2],
                      "mbs": rng.choice([512, 1000]), "shuffle": k % 2 == 0, "seed": 77 + k, "tag": f"savi-dense{ng}",
                      "min_sweeps": 2})
+    # more than 2^17 states, shuffled, judged in full (positions come from a verified inverse permutation, which keeps
+    # the model checker's cost linear)
+    for k, N in enumerate([131100] if tier == "quick" else [131100, 262200]):
+        m = gen.corridors(rng, N, [3, 2])
+        jobs.append({"mdp": m, "kind": "SAVI", "gamma": [1, 2], "eps": [1, 2], "test": "span", "calls": [2],
+                     "mbs": rng.choice([65536, 40000]), "shuffle": True, "seed": 5 + k, "tag": f"savi-corridors{N}", "min_sweeps": 2})
     # beyond the default iteration limit (2000): integer-valued undiscounted rings never leave the 32-bit range
     for k in range(1 if tier == "quick" else 3):
         m = gen.ring(rng, rng.randint(3, 5), extra=rng.randint(3, 4), v0max=1, rmax=2)
